@@ -115,7 +115,7 @@ def gen_call(r: random.Random, cfg: dict, kn: dict) -> dict:
         call["overshoot"] = [0]
     call["decisions"] = []
     if r.random() < kn.get("p_decisions", 0.5):
-        m = r.randint(0, n)
+        m = 0 if r.random() < kn.get("p_decide_first", 0.25) else r.randint(0, n)
         call["decisions"] = ["S"] * m + [r.choice(["D", "A", "S"])]
     call["abort_at"] = None
     if r.random() < kn.get("p_abort", 0.2):
